@@ -1152,8 +1152,24 @@ def expected_graph(p):
             for l in st['libs']:
                 libs_used_by.setdefault(l, set()).add(st['name'])       # l is the variable name lib<i> == library name
     used = set(libs_used_by)
+    # forwarding static libraries (link_options= handed on to whatever links them, possibly through another static library)
+    # and their consumers, every one of which is a goal of its own
+    fwd = getattr(p, 'fwd_libs', [])
+    cons = [st for st in p.steps if st['kind'] == 'link' and 'fwd' in st]
+    fvar = {f['var']: k for k, f in enumerate(fwd)}
+    for st in p.steps:
+        if st['kind'] == 'compile' and st['owner'] in fvar:
+            k = fvar[st['owner']]
+            users = {'link:' + c['name'] for c in cons if k in projgen.fwd_closure(fwd, c['fwd'])}
+            # a static library that lists another one in libs= is archived again when that one changed
+            archives = {'link:' + fwd[j]['var'] for j in range(len(fwd)) if k in projgen.fwd_closure(fwd, [j])}
+            down[st['source']] = ({'compile:' + st['source']} | archives | users) if users else set()
+        elif st['kind'] == 'compile' and st['lib'] and any(c['name'] == st['owner'] for c in cons):
+            down[st['source']] = {'compile:' + st['source'], 'link:' + st['owner']}      # a shared-library consumer
     for st in p.steps:
         if st['kind'] == 'compile':
+            if st['source'] in down:
+                continue
             if st['lib'] and st['owner'] not in used:
                 down[st['source']] = set()       # a library nothing links against is not part of the requested targets
                 continue
@@ -1188,7 +1204,7 @@ def one_project(rep, rng, idx):
         names = []
         for st in p.steps:
             if st['kind'] == 'link' and 'libkind' not in st:
-                names.append(st['name'])
+                names.append(st.get('out') or st['name'])      # the goal is the file (a shared library consumer: lib<name>.so)
         rcm, recs, mout = project.make(s.build, targets + names, stub_tools=True)
         if rcm != 0:
             rep.fail('make fails on the generated project: %s' % mout[-300:], {'script': p.script(), 'make_output': mout[-1500:]})
